@@ -4,43 +4,26 @@ import DEngine.Model.ElectMon
 # C03 — A node only skips vote collection when it is the only voter
 
 `broadcastOutcome m …` is the model of `ElectionHandler::broadcast_vote_requests` on membership `m`
-(`Memb` = the part of `RaftMembership` the election looks at: `voters()`, `is_single_node_cluster()` =
-`initial_cluster_size == 1`, `apply_config_change`).  `Outcome.wonWithoutVotes` is the early `Ok(())` taken
-without issuing a single vote request.
+(`Memb` = the part of `RaftMembership` the election looks at: `voters()`, `is_single_node_cluster()`,
+`initial_cluster_size`, `apply_config_change`).  `Outcome.wonWithoutVotes` is the early `Ok(())` taken without
+issuing a single vote request.
 
-* `SkipOnlyIfSoleVoterStatement` — the property at full strength, over all initial configurations and all
-  membership histories.  **False for the code as it is** (finding F3): `skip_only_if_sole_voter_false`,
-  witness = start alone, add two learners, promote them, then hold an election.
-* `skip_iff_initial_size_one` — what the code really tests.
-* `skip_only_if_sole_voter_partial` — the property holds for every history that adds no voter to an initial
-  configuration without other voters (the exact excluded trigger).
-* `fixed_skip_only_if_sole_voter` — with the proposed repair (`voters().is_empty()` instead of
-  `initial_cluster_size == 1`) the full statement holds.
+History: as found, `is_single_node_cluster()` was `initial_cluster_size == 1` only and the property was false
+(finding F3: start alone, add two learners, promote them, hold an election — replayed on the real code).
+Fix 16342b6 made it `initial_cluster_size == 1 && voters().is_empty()`; the model follows the fixed code.
+
+* `skip_only_if_sole_voter` — **the property at full strength**: for every initial configuration, every
+  membership history, every term / log / transport result, a request-free win implies that there is no other voter.
+* `skip_iff` — exactly when the shortcut is taken now.
+* `multi_node_config_never_skips` — the intent of the old test is kept: a node configured with several nodes
+  never takes the shortcut, even if all its peers were removed.
+* `pre_fix_shortcut_was_wrong` — the predicate used before the fix violates the property on the F3 witness.
 -/
 namespace DEngine.C03
 open DEngine.Elect
 
-/-- C03 at full strength (monitor predicate `skipOK` on the outcome and the current voters). -/
-def SkipOnlyIfSoleVoterStatement : Prop :=
-  ∀ (self : Nat) (initial : List MNode) (h : List Change) (term lli llt : Nat)
-    (tr : Option (Nat × List Resp)),
-    skipOK (broadcastOutcome ((Memb.mk' self initial).applyAll h) term lli llt tr)
-      ((Memb.mk' self initial).applyAll h).voters = true
-
 /-- witness history of F3: node 1 starts alone, learners 2 and 3 join and are promoted -/
 def f3History : List Change := [.addNode 2 1, .addNode 3 1, .batchPromote [2, 3] 3]
-
-theorem f3_witness :
-    ((Memb.mk' 1 [⟨1, false, 3⟩]).applyAll f3History).voters = [2, 3] ∧
-    broadcastOutcome ((Memb.mk' 1 [⟨1, false, 3⟩]).applyAll f3History) 2 0 0 none = .wonWithoutVotes := by
-  decide
-
-/-- **The code as it is violates C03** (F3). -/
-theorem skip_only_if_sole_voter_false : ¬ SkipOnlyIfSoleVoterStatement := by
-  intro h
-  have := h 1 [⟨1, false, 3⟩] f3History 2 0 0 none
-  revert this
-  decide
 
 /-- the outcome of the tally is `wonWithoutVotes` exactly when the shortcut flag is set -/
 theorem tally_skip_iff (term lli llt : Nat) (single : Bool) (nV : Nat) (tr : Option (Nat × List Resp)) :
@@ -79,12 +62,44 @@ theorem tally_skip_iff (term lli llt : Nat) (single : Bool) (nV : Nat) (tr : Opt
         · split <;> simp
   · simp
 
-/-- **What the code tests**: the request-free win is taken iff the node's *initial* configuration had size 1. -/
-theorem skip_iff_initial_size_one (m : Memb) (term lli llt : Nat) (tr : Option (Nat × List Resp)) :
-    broadcastOutcome m term lli llt tr = .wonWithoutVotes ↔ m.initSize = 1 := by
+/-- **When the shortcut is taken** (after fix 16342b6). -/
+theorem skip_iff (m : Memb) (term lli llt : Nat) (tr : Option (Nat × List Resp)) :
+    broadcastOutcome m term lli llt tr = .wonWithoutVotes ↔ (m.initSize = 1 ∧ m.voters = []) := by
   unfold broadcastOutcome
   rw [tally_skip_iff]
-  simp [Memb.isSingleNodeCluster]
+  simp [Memb.isSingleNodeCluster, List.isEmpty_iff]
+
+/-- **C03 at full strength**: whatever the initial configuration, the membership history, the term, the log and
+    the transport do, an election won without sending a vote request happens only without any other voter. -/
+theorem skip_only_if_sole_voter (self : Nat) (initial : List MNode) (h : List Change) (term lli llt : Nat)
+    (tr : Option (Nat × List Resp)) :
+    skipOK (broadcastOutcome ((Memb.mk' self initial).applyAll h) term lli llt tr)
+      ((Memb.mk' self initial).applyAll h).voters = true := by
+  unfold skipOK
+  by_cases hs : broadcastOutcome ((Memb.mk' self initial).applyAll h) term lli llt tr = .wonWithoutVotes
+  · have := ((skip_iff _ term lli llt tr).mp hs).2
+    simp [this]
+  · simp [hs]
+
+/-- the same for any membership value (not only reachable ones) -/
+theorem skip_only_if_sole_voter' (m : Memb) (term lli llt : Nat) (tr : Option (Nat × List Resp)) :
+    skipOK (broadcastOutcome m term lli llt tr) m.voters = true := by
+  unfold skipOK
+  by_cases hs : broadcastOutcome m term lli llt tr = .wonWithoutVotes
+  · have := ((skip_iff m term lli llt tr).mp hs).2
+    simp [this]
+  · simp [hs]
+
+/-- regression of F3: the expanded node now has to collect votes (no transport result ⇒ no win) -/
+theorem f3_regression :
+    ((Memb.mk' 1 [⟨1, false, 3⟩]).applyAll f3History).voters = [2, 3] ∧
+    broadcastOutcome ((Memb.mk' 1 [⟨1, false, 3⟩]).applyAll f3History) 2 0 0 none = .transportErr ∧
+    broadcastOutcome ((Memb.mk' 1 [⟨1, false, 3⟩]).applyAll f3History) 2 0 0 (some (2, [.ok true 2 0 0])) = .won := by
+  decide
+
+/-- non-vacuity: a node that really is alone still wins at once -/
+example : broadcastOutcome ((Memb.mk' 1 [⟨1, false, 3⟩]).applyAll [.addNode 2 1, .removeNode 2]) 2 0 0 none
+    = .wonWithoutVotes := by decide
 
 /-- the initial size never changes -/
 theorem initSize_apply (m : Memb) (c : Change) : (m.apply c).1.initSize = m.initSize := by
@@ -98,100 +113,23 @@ theorem initSize_applyAll (m : Memb) (h : List Change) : (m.applyAll h).initSize
   | nil => rfl
   | cons c cs ih => simp only [List.foldl_cons]; rw [ih, initSize_apply]
 
-/-- a change that cannot create a voter: no promotion, no node added directly as `Active` -/
-def addsNoVoter : Change → Bool
-  | .addNode _ status => status != 3
-  | .removeNode _ => true
-  | .promote _ => false
-  | .batchPromote _ _ => false
-  | .batchRemove _ => true
+/-- a node configured with several nodes never takes the shortcut, whatever happens to its membership
+    (the behaviour pinned by `test_network_partition_does_not_affect_cluster_size`) -/
+theorem multi_node_config_never_skips (self : Nat) (initial : List MNode) (h : List Change)
+    (hi : initial.length ≠ 1) (term lli llt : Nat) (tr : Option (Nat × List Resp)) :
+    broadcastOutcome ((Memb.mk' self initial).applyAll h) term lli llt tr ≠ .wonWithoutVotes := by
+  intro hs
+  have := ((skip_iff _ term lli llt tr).mp hs).1
+  rw [initSize_applyAll] at this
+  exact hi this
 
-/-- no node other than `self` is `Active` -/
-def NoOtherVoter (m : Memb) : Prop := ∀ n ∈ m.nodes, n.id = m.self ∨ n.status ≠ 3
+/-- the tally as it was before the fix: shortcut keyed on the initial size only -/
+def broadcastOutcomePreFix (m : Memb) (term lli llt : Nat) (tr : Option (Nat × List Resp)) : Outcome :=
+  tally term lli llt (m.initSize == 1) m.voters.length tr
 
-theorem voters_nil_of_noOtherVoter (m : Memb) (h : NoOtherVoter m) : m.voters = [] := by
-  unfold Memb.voters
-  rw [List.map_eq_nil_iff, List.filter_eq_nil_iff]
-  intro n hn
-  rcases h n hn with h1 | h1
-  · simp [h1]
-  · simp [h1]
-
-theorem noOtherVoter_apply (m : Memb) (c : Change) (hc : addsNoVoter c = true) (h : NoOtherVoter m) :
-    NoOtherVoter (m.apply c).1 ∧ (m.apply c).1.self = m.self := by
-  cases c with
-  | addNode id status =>
-    simp only [Memb.apply]
-    split
-    · exact ⟨h, rfl⟩
-    · refine ⟨?_, rfl⟩
-      intro n hn
-      simp only [List.mem_append, List.mem_singleton] at hn
-      rcases hn with hn | hn
-      · exact h n hn
-      · subst hn
-        right
-        simpa [addsNoVoter] using hc
-  | removeNode id =>
-    refine ⟨?_, rfl⟩
-    intro n hn
-    simp only [Memb.apply, List.mem_filter] at hn
-    exact h n hn.1
-  | promote id => simp [addsNoVoter] at hc
-  | batchPromote ids st => simp [addsNoVoter] at hc
-  | batchRemove ids =>
-    refine ⟨?_, rfl⟩
-    intro n hn
-    simp only [Memb.apply, List.mem_filter] at hn
-    exact h n hn.1
-
-theorem noOtherVoter_applyAll (m : Memb) (h : List Change) (hh : h.all addsNoVoter = true)
-    (hm : NoOtherVoter m) : NoOtherVoter (m.applyAll h) := by
-  unfold Memb.applyAll
-  induction h generalizing m with
-  | nil => exact hm
-  | cons c cs ih =>
-    simp only [List.all_cons, Bool.and_eq_true] at hh
-    simp only [List.foldl_cons]
-    exact ih _ hh.2 (noOtherVoter_apply m c hh.1 hm).1
-
-/-- **C03, partial**: for an initial configuration without other voters and any history that adds none,
-    the property holds (whatever the election does, there is no other voter). -/
-theorem skip_only_if_sole_voter_partial (self : Nat) (initial : List MNode) (h : List Change)
-    (hinit : ∀ n ∈ initial, n.id = self ∨ n.status ≠ 3) (hh : h.all addsNoVoter = true)
-    (term lli llt : Nat) (tr : Option (Nat × List Resp)) :
-    skipOK (broadcastOutcome ((Memb.mk' self initial).applyAll h) term lli llt tr)
-      ((Memb.mk' self initial).applyAll h).voters = true := by
-  have hv := voters_nil_of_noOtherVoter _ (noOtherVoter_applyAll (Memb.mk' self initial) h hh hinit)
-  simp [skipOK, hv]
-
-/-- non-vacuity of the partial theorem: a sole voter with a joining learner and a removal -/
-example : ([Change.addNode 2 1, .removeNode 2, .batchRemove [5]]).all addsNoVoter = true ∧
-    broadcastOutcome ((Memb.mk' 1 [⟨1, false, 3⟩]).applyAll [.addNode 2 1, .removeNode 2, .batchRemove [5]]) 2 0 0 none
-      = .wonWithoutVotes := by decide
-
-/-! ### the proposed repair -/
-
-/-- `broadcast_vote_requests` with `is_single_node_cluster()` replaced by `voters().is_empty()` -/
-def broadcastOutcomeFixed (m : Memb) (term lli llt : Nat) (tr : Option (Nat × List Resp)) : Outcome :=
-  tally term lli llt m.voters.isEmpty m.voters.length tr
-
-/-- **C03 in full for the repaired tally**, all configurations and histories. -/
-theorem fixed_skip_only_if_sole_voter (m : Memb) (term lli llt : Nat) (tr : Option (Nat × List Resp)) :
-    skipOK (broadcastOutcomeFixed m term lli llt tr) m.voters = true := by
-  unfold skipOK broadcastOutcomeFixed
-  by_cases hv : m.voters.isEmpty = true
-  · simp [hv]
-  · have : tally term lli llt m.voters.isEmpty m.voters.length tr ≠ .wonWithoutVotes := by
-      intro h
-      rw [tally_skip_iff] at h
-      exact hv h
-    simp [this]
-
-/-- the repair does not change the outcome for a node that really is alone -/
-theorem fixed_agrees_when_alone (m : Memb) (hv : m.voters = []) (hs : m.initSize = 1)
-    (term lli llt : Nat) (tr : Option (Nat × List Resp)) :
-    broadcastOutcomeFixed m term lli llt tr = broadcastOutcome m term lli llt tr := by
-  simp [broadcastOutcomeFixed, broadcastOutcome, Memb.isSingleNodeCluster, hv, hs, tally]
+/-- the pre-fix predicate violated C03 (F3 witness) -/
+theorem pre_fix_shortcut_was_wrong :
+    skipOK (broadcastOutcomePreFix ((Memb.mk' 1 [⟨1, false, 3⟩]).applyAll f3History) 2 0 0 none)
+      ((Memb.mk' 1 [⟨1, false, 3⟩]).applyAll f3History).voters = false := by decide
 
 end DEngine.C03
